@@ -9,6 +9,8 @@ import (
 	"fmt"
 	"runtime"
 	"runtime/pprof"
+	sqlexec "seata.apache.org/seata-go/pkg/datasource/sql/exec"
+	"seata.apache.org/seata-go/pkg/datasource/sql/types"
 	"sort"
 	"strings"
 	"sync"
@@ -148,6 +150,14 @@ func runC20(t *testing.T, seed uint64, planJSON []byte, tier string) (res *Resul
 		for _, db := range []*sql.DB{atDB, xaDB} {
 			db.SetMaxIdleConns(plan.MaxIdle)
 			db.SetMaxOpenConns(plan.MaxOpen)
+		}
+		// the application's SQL hooks (public API of the executor registry): one
+		// for every statement, one per statement type; a type hook must only ever
+		// see statements of its type
+		var hookCalls, hookWrongType int64
+		sqlexec.RegisterCommonHook(&c20Hook{typ: types.SQLTypeUnknown, calls: &hookCalls, wrong: &hookWrongType})
+		for _, ty := range []types.SQLType{types.SQLTypeUpdate, types.SQLTypeInsert, types.SQLTypeDelete, types.SQLTypeSelect} {
+			sqlexec.RegisterHook(&c20Hook{typ: ty, calls: &hookCalls, wrong: &hookWrongType})
 		}
 		errRollback := errors.New("business rolls back")
 		// one transaction of a kind; returns whether it committed
@@ -416,6 +426,12 @@ func runC20(t *testing.T, seed uint64, planJSON []byte, tier string) (res *Resul
 				sim.Violate("C20", "no-connection-lost", "connection-left-open", "%d database connection(s) opened during the batch are still open and in no pool after it: %v", len(lost), lost)
 			}
 		}
+		if n := atomic.LoadInt64(&hookWrongType); n > 0 {
+			sim.Violate("C20", "no-data-race", "hook-ran-for-other-statement-type", "%d time(s) a SQL hook registered for one statement type was run for a statement of another type (%d hook calls in all)", n, atomic.LoadInt64(&hookCalls))
+		}
+		if atomic.LoadInt64(&hookCalls) > 0 {
+			sim.Probe("c20-sql-hooks-ran")
+		}
 		if n := w.Srv.OpenTxnCount(); n > 0 {
 			sim.Violate("C20", "no-connection-lost", "transaction-left-open", "%d local transaction(s) still open after the batch", n)
 		}
@@ -452,6 +468,28 @@ func sumPrefix(m map[string]int, prefix string) int {
 		}
 	}
 	return n
+}
+
+// c20Hook is an application SQL hook.
+type c20Hook struct {
+	typ          types.SQLType
+	calls, wrong *int64
+}
+
+func (h *c20Hook) Type() types.SQLType { return h.typ }
+func (h *c20Hook) check(execCtx *types.ExecContext) {
+	atomic.AddInt64(h.calls, 1)
+	if h.typ != types.SQLTypeUnknown && execCtx != nil && execCtx.ParseContext != nil && execCtx.ParseContext.SQLType != h.typ {
+		atomic.AddInt64(h.wrong, 1)
+	}
+}
+func (h *c20Hook) Before(ctx context.Context, execCtx *types.ExecContext) error {
+	h.check(execCtx)
+	return nil
+}
+func (h *c20Hook) After(ctx context.Context, execCtx *types.ExecContext) error {
+	h.check(execCtx)
+	return nil
 }
 
 func init() { engines["C20"] = runC20 }
